@@ -61,11 +61,41 @@ def read_structure(spec):
     return out
 
 
+NARROW = {"int32": ("int32", 20000, False), "int16": ("int16", 100, False), "uint8": ("uint8", 20, True), "int64": ("int64", 2**31, False)}
+
+
+def narrow_ints(fr, fc, kind, out):
+    """Integer columns of another width whose values fit the dtype while products of two of them do not (the product a
+    label denotes is that of the numbers, not of their machine representation). Only columns that are used as plain
+    numeric factors: inside a Python expression the arithmetic is the user's own."""
+    import copy
+
+    plain, other = set(), set()
+    for t in fc["terms"]:
+        for f in t:
+            (plain if f["k"] == "num" else other).update([f["col"]] if "col" in f else f.get("cols", []))
+    dtype, mult, nonneg = NARROW[kind]
+    fr = copy.deepcopy(fr)
+    done = False
+    for c in sorted(plain - other):
+        col = fr["cols"].get(c)
+        if col and col["dtype"] in ("int64", "float64") and None not in col["values"]:
+            ints = col["values"] if col["dtype"] == "int64" else [F.NUM_VALUES.index(v) - 3 for v in col["values"]]
+            col["dtype"] = dtype
+            col["values"] = [(abs(v) if nonneg else v) * mult for v in ints]
+            done = True
+    if done:
+        out.label("integer-width:" + kind)
+    return fr
+
+
 def check_case(case) -> Outcome:
     from ..libio import model_matrix
 
     out = Outcome()
     fr, fc, efr, output = case["frame"], case["formula"], case["efr"], case["output"]
+    if case.get("narrow"):
+        fr = narrow_ints(fr, fc, case["narrow"], out)
     df = F.build(fr)
     s = F.formula_string(fc)
     out.nontrivial = nontrivial(fc)
@@ -167,15 +197,23 @@ def _is_lit(x):
     return x[:1].isdigit() or x[:1] == "."
 
 
+def _with_int_product(fc, nar):
+    if not nar:
+        return fc
+    extra = [[{"k": "num", "col": "x"}, {"k": "num", "col": "y"}]]
+    return {"intercept": fc["intercept"], "terms": F.normalize_terms(fc["terms"] + extra)}
+
+
 def gen(max_rows=12):
     return st.builds(
-        lambda fr, fc, efr, o, prime, lhs: {"frame": fr, "formula": fc, "efr": efr, "output": o, "prime": prime, "lhs": lhs},
+        lambda fr, fc, efr, o, prime, lhs, nar: {"frame": fr, "formula": _with_int_product(fc, nar), "efr": efr, "output": o, "prime": prime, "lhs": lhs, "narrow": nar},
         F.frame(max_rows=max_rows, index_kinds=("default", "default", "shuffled", "offset", "strings")),
         F.formulas(),
         st.booleans(),
         st.sampled_from(["pandas", "numpy", "sparse"]),
         st.sampled_from([False, False, True]),
         st.sampled_from([None, None, None, "2", "0.5"]),
+        st.sampled_from([None, None, "int32", "int16", "uint8", "int64"]),
     )
 
 
